@@ -3,14 +3,16 @@
 1. Handshake.tla (symbolic crypto) is model-checked with Scope = "agree" (every option combination x clock offset
    strictly inside the window, honest network) and with Scope = "sound", MaxTamper = 1 (KeyAgreement: whenever a
    client completes, under any single tamper, it completed with the server's key and its own identity).
-   Negative configurations: each deviation flag that stands for one of the layout mistakes the property is about
-   (reply offsets, method field slicing, flag bit, session-id byte order) must break Agreement / Soundness.
+   Vacuity (HandshakeNeg.tla, one run): each deviation flag that stands for one of the layout mistakes the property
+   is about (reply offsets, method field slicing, flag bit, session-id byte order) must break an agreement invariant.
 2. HandshakeGen.tla exports every abstract case; the Go harness runs each for real N times (fresh ephemeral keys,
    nonces and uTLS extension orders) through RawConfig -> ProcessRawConfig -> Transport.Handshake against the real
    dispatchConnection and compares ClientInfo, session key and (sampled) end-to-end data flow.
 """
 import concurrent.futures
+import json
 import os
+import re
 
 import lib
 
@@ -28,8 +30,23 @@ JVM = {"JAVA_TOOL_OPTIONS": "-Xss64m -XX:ParallelGCThreads=2 -XX:TieredStopAtLev
 INV = "Agreement KeyAgreement Soundness AdminGate AdminReach"
 
 
-def _sub(scope, maxt, dev="{}", inv=INV, w=2):
+def _sub(scope, maxt, dev="{{}}", inv=INV, w=2):
     return {"W": w, "MAXT": maxt, "SCOPE": scope, "DEV": dev, "INV": inv}
+
+
+def neg_matrix(ctx, flags):
+    """One TLC run in which every behaviour carries one deviation flag; returns {flag: set(invariants it breaks)}."""
+    dev = "{" + ",".join('{"%s"}' % f for f in flags) + "}"
+    r = lib.run_tlc(ctx, "HandshakeNeg", "HandshakeNeg.cfg", _sub("neg", 0, dev), tag="neg_matrix", workers=1, timeout=900, env=JVM)
+    lib.require_ok(r, "neg_matrix")
+    m = re.search(r'<<"NEGMATRIX", (".*")>>', r.out)
+    if not m:
+        raise lib.Inconclusive("HandshakeNeg printed no matrix")
+    doc = json.loads(lib._unq(m.group(1)))
+    out = {}
+    for i, f in enumerate(doc["flags"]):
+        out[f] = {doc["invs"][j] for j, v in enumerate(doc["matrix"][i]) if v == 1}
+    return r, out
 
 
 def run(ctx):
@@ -43,22 +60,20 @@ def run(ctx):
                                        tag="mc_sound", workers=4, timeout=900, env=JVM)
         jobs["mc_agree_w3"] = pool.submit(lib.run_tlc, ctx, "Handshake", "Handshake_mc.cfg", _sub("agree", 0, w=3),
                                           tag="mc_agree_w3", workers=4, timeout=900, env=JVM)
-    for d in DEVS:
-        jobs["neg_" + d] = pool.submit(lib.run_tlc, ctx, "Handshake", "Handshake_mc.cfg", _sub("neg", 0, '{"%s"}' % d),
-                                       tag="neg_" + d, workers=1, timeout=900, env=JVM, expect_violation=True)
+    negf = pool.submit(neg_matrix, ctx, DEVS)
     # compile the harness while TLC runs
     warm = pool.submit(lambda: lib.run_go(ctx, "server", "TestVerifC06Warm", tag="warm", prefixes=("c06", "c07", "shared")))
     res = {k: f.result() for k, f in jobs.items()}
     warm.result()
     pool.shutdown(wait=False)
+    negr, broken = negf.result()
+    for d in DEVS:
+        if not (broken.get(d, set()) & {"Agreement", "KeyAgreement", "Soundness"}):
+            raise lib.Inconclusive("deviation %s breaks no agreement invariant in the model: the invariants would be vacuous" % d)
+    ctx.log("vacuity: each of %s breaks %s (%d states, %.1fs)" % (DEVS, {d: sorted(broken[d]) for d in DEVS}, negr.distinct, negr.wall))
     for name, r in res.items():
-        if name.startswith("neg_"):
-            if r.violated not in ("Agreement", "Soundness", "KeyAgreement"):
-                raise lib.Inconclusive("deviation %s does not break agreement in the model (got %s): the invariant would be vacuous" % (name, r.violated))
-            ctx.log("%s: %s violated after %d states, as required" % (name, r.violated, r.distinct))
-        else:
-            lib.require_ok(r, name)
-            ctx.log("%s: invariants hold, %d distinct states (%.1fs)" % (name, r.distinct, r.wall))
+        lib.require_ok(r, name)
+        ctx.log("%s: invariants hold, %d distinct states (%.1fs)" % (name, r.distinct, r.wall))
     cases = [b for b in res["gen_agree"].behaviours if b["verdict"] == "must-accept" and not b["tampers"]]
     if len(cases) != len(res["gen_agree"].behaviours) or not cases:
         raise lib.Inconclusive("Scope=agree must consist of must-accept cases only (%d of %d)" % (len(cases), len(res["gen_agree"].behaviours)))
@@ -69,6 +84,9 @@ def run(ctx):
     ctx.log("replay: %d abstract cases, %d handshakes (%d direct, %d cdn), %d end-to-end probes, stuck=%d panics=%d, %.1fs" % (
         gs.get("abstract_cases", 0), g["evaluations"], gs.get("handshakes:direct", 0), gs.get("handshakes:cdn", 0),
         gs.get("probes", 0), gs.get("dispatch_stuck", 0), gs.get("dispatch_panics", 0), gs.get("replay_wall_ms", 0) / 1000.0))
+    if gs.get("draws_cut_by_budget", 0):
+        ctx.notes.append("wall budget reached: %d planned draws were not run; minimum draws per case: chrome/direct %s, fixed layouts %s" % (
+            gs["draws_cut_by_budget"], gs.get("draws_min_chrome_direct"), gs.get("draws_min_fixed_layout")))
     if gs.get("dispatch_panics", 0):
         ctx.violations.append({"key": "panic", "what": "dispatchConnection panicked on a valid client handshake", "replay": g.get("notes")})
     for n in g.get("notes", []):
@@ -76,17 +94,21 @@ def run(ctx):
     cov = {
         "evaluations": g["evaluations"],
         "distinct_nontrivial": g["distinct_nontrivial"],
-        "rule": "abstract cases = every initial state of Handshake (Scope=agree): 2 uids x method-name length {1,11,12} x 4 encryption methods x "
-                "sid {0, 0x01020304, 0xffffffff} x unordered flag x 3 signatures x {direct, cdn} x sni {fixed, 'random'} x user {bypass, db, admin} x "
-                "stamp offset strictly inside the window {-1,0,+1 tick = -179 s/-(180 s - 1 ns), ~0, +179 s/+(180 s - 1 ns)}; each is run %s times with fresh "
-                "ephemeral keys, nonces, extension orders, spellings of the option values, NumConn; every run is non-trivial (a complete real handshake "
-                "compared at both ends); distinct = distinct abstract cases" % gs.get("draws_per_case", "?"),
+        "rule": "abstract cases = every initial state of Handshake (Scope=agree): {bypass user u1, database user u2} x method-name length {1,11,12} x "
+                "4 encryption methods x sid {0, 0x01020304, 0xffffffff} x unordered flag x 3 signatures x {direct, cdn} x sni {fixed, 'random'} x stamp "
+                "offset strictly inside the window {-1, 0, +1 tick = -179 s / -(180 s - 1 ns) / -(180 s - 1 ms), ~0, +179 s ...}, plus the admin user on "
+                "4 encryption methods x 3 sids x 2 transports x 3 offsets; each case is run with fresh ephemeral keys, nonces, uTLS extension orders, "
+                "spellings of the option values, server names and NumConn: chrome/direct (shuffled extensions) %s times (at least %s done), the fixed "
+                "layouts %s times (at least %s done), %s draws cut by the wall budget; every run is a complete real handshake compared at both ends "
+                "(non-trivial); distinct = distinct abstract cases" % (
+                    gs.get("draws_target_chrome_direct"), gs.get("draws_min_chrome_direct"), gs.get("draws_target_fixed_layout"),
+                    gs.get("draws_min_fixed_layout"), gs.get("draws_cut_by_budget", 0)),
         "samples": g["samples"],
         "traces_validated_against_impl": int(gs.get("abstract_cases", 0)),
         "handshakes": g["evaluations"],
         "end_to_end_probes": gs.get("probes", 0),
         "exhaustive": True,
-        "checker_cmd": "tlc Handshake.tla (agree/sound + 4 negative configs) / HandshakeGen.tla + go test -run TestVerifC06Replay",
+        "checker_cmd": "tlc Handshake.tla (agree/sound) / HandshakeNeg.tla (4 deviation flags) / HandshakeGen.tla + go test -run TestVerifC06Replay",
         "harness_stats": gs,
     }
     return lib.finish(ctx, LEVEL, cov, ASSUME)
